@@ -1018,6 +1018,12 @@ _type_text_rule('numeric_min_greater_than_max',
                 lambda t: t.name + ('(min_value=5, max_value=2)' if t.name in PRIM_INTS
                                     else '(min_value=5.0, max_value=2.0)'),
                 lambda t: t.name in PRIM_INTS or t.name in PRIM_FLOATS)
+_type_text_rule('numeric_min_greater_than_max_with_zero_bound',
+                lambda t: t.name + {'UInt32': '(min_value=1, max_value=0)', 'UInt64': '(min_value=7, max_value=0)',
+                                    'Int32': '(min_value=0, max_value=-5)', 'Int64': '(min_value=3, max_value=0)',
+                                    'Float32': '(min_value=0, max_value=-0.5)',
+                                    'Float64': '(min_value=2.5, max_value=0.0)'}[t.name],
+                lambda t: t.name in PRIM_INTS or t.name in PRIM_FLOATS)
 _type_text_rule('boolean_as_numeric_bound',
                 lambda t: t.name + '(min_value=true)' if t.name != 'String' else 'String(min_length=true)',
                 lambda t: t.name in PRIM_INTS or t.name in PRIM_FLOATS)
